@@ -61,9 +61,10 @@ const (
 	actDisableCompactions
 	actDisableSnapshots
 	actClose
+	actDeleteKey // a whole-series delete reaches the inputs' indexes while their block iterators are open: the readers then fail inside Next()
 )
 
-var actNames = []string{"none", "inject-error", "DisableCompactions", "DisableSnapshots", "Close"}
+var actNames = []string{"none", "inject-error", "DisableCompactions", "DisableSnapshots", "Close", "delete-a-later-key-from-the-inputs"}
 
 type hookState struct {
 	n      int64 // blocks seen
@@ -71,6 +72,9 @@ type hookState struct {
 	action int
 	comp   *tsm1.Compactor
 	fired  int32
+	fs     *tsm1.FileStore
+	delKey string
+	delErr error
 }
 
 var hookStates sync.Map // directory -> *hookState
@@ -103,6 +107,8 @@ func installHook() {
 				st.comp.DisableSnapshots()
 			case actClose:
 				st.comp.Close()
+			case actDeleteKey:
+				st.delErr = st.fs.DeleteRange([][]byte{[]byte(st.delKey)}, math.MinInt64, math.MaxInt64)
 			}
 		}
 		return nil
@@ -124,7 +130,7 @@ func body() {
 	r.Assumptions = []string{
 		"compaction groups are runs of whole generations passed in engine order (generation, sequence ascending), as the planner produces them",
 		"within one input file a key's blocks are sorted and disjoint and a block holds strictly increasing timestamps (what every writer of the engine produces); overlap exists only between files",
-		"failures are injected at the compact.block site only (error return, DisableCompactions / DisableSnapshots / Close from the handler); reader-originated I/O errors and the .bad rename of checksum-failing inputs are not exercised",
+		"failures are injected at the compact.block site (error return, DisableCompactions / DisableSnapshots / Close from the handler) and, as the one reader-originated failure, by deleting a later key from the inputs through the FileStore once the block iterators are open (only in layouts where BlockIterator is certain to notice: it checks when it moves to another key; the engine itself never deletes under a running compaction); I/O errors of the readers and the .bad rename of checksum-failing inputs are not exercised",
 		"the 2 GiB file-size rollover and the >=2e6-value concurrent snapshot path are out of reach of the tiers; the size limit is only checked on the outputs produced",
 	}
 	r.Floor = 150
@@ -1049,6 +1055,92 @@ func (s *setRun) oneRound(ri int, rs *roundSpec, group []*mfile, aborts bool) bo
 				return false
 			}
 		}
+		// a reader-originated failure: the last key of the group is deleted from
+		// the inputs (whole series, through the FileStore) once the compaction
+		// has opened its block iterators; the iterators of the files that held
+		// it then stop with an error inside Next()
+		gkeys := map[string]bool{}
+		for _, f := range group {
+			for k := range f.keys {
+				gkeys[k] = true
+			}
+		}
+		if len(gkeys) >= 2 && total >= 2 && s.g.Intn(2) == 0 {
+			var last string
+			for k := range gkeys {
+				if k > last {
+					last = k
+				}
+			}
+			// BlockIterator notices a delete when it moves on to another key. At
+			// block 1 every input iterator sits on its file's first key, so the
+			// failure is certain only if no input holds the deleted key as its
+			// first key (the engine never deletes under a running compaction, it
+			// stops compactions first; this is a way to make a reader fail).
+			certain, detects := true, false
+			for _, f := range group {
+				if _, ok := f.keys[last]; !ok {
+					continue
+				}
+				// a key without any tombstone in this file is surely in its index
+				smaller := false
+				for k := range f.keys {
+					if k < last && len(f.tombs[k]) == 0 {
+						smaller = true
+					}
+				}
+				if !smaller {
+					certain = false
+				} else if len(f.tombs[last]) == 0 {
+					detects = true
+				}
+			}
+			certain = certain && detects
+			if !certain {
+				goto noDelete
+			}
+			atomic.StoreInt64(&st.n, 0)
+			atomic.StoreInt32(&st.fired, 0)
+			st.k, st.action, st.fs, st.delKey, st.delErr = 1, actDeleteKey, s.fs, last, nil
+			outs, err := s.compact(comp, rs.Fast, paths)
+			st.k = 0
+			comp.EnableCompactions()
+			comp.EnableSnapshots()
+			what := fmt.Sprintf("whole-series delete of %s through the FileStore at block 1 of %d", showKey(last), total)
+			switch {
+			case atomic.LoadInt32(&st.fired) != 1:
+				r.Inconclusive(fmt.Sprintf("case %s: compact.block was not reached for the delete-during-compaction attempt", s.id))
+				for _, o := range outs {
+					os.Remove(o)
+				}
+			case st.delErr != nil:
+				hfail("FileStore.DeleteRange inside the compaction: %v", st.delErr)
+			default:
+				op := &tombOp{Keys: []string{last}, Min: math.MinInt64, Max: math.MaxInt64}
+				op.applyToModel(s.cur)
+				r.Count("aborts_"+actNames[actDeleteKey], 1)
+				if err == nil {
+					// tolerated only if the outputs hold exactly the inputs' remaining content
+					r.Count("compactions_that_survived_a_concurrent_delete", 1)
+					outFiles, ok := s.verifyOutputs(outs, group, ri, rs, rs.Size, false)
+					for _, o := range outs {
+						os.Remove(o)
+					}
+					if outFiles == nil || !ok {
+						return false
+					}
+				} else {
+					if len(outs) > 0 {
+						s.violation("C09/abort/files-returned", fmt.Sprintf("compaction with %s returned error %q together with %d output files", what, err, len(outs)), s.wit(ri, rs, group, "", what))
+						return false
+					}
+					if !s.checkAfterFailure(ri, rs, group, images, what, true) {
+						return false
+					}
+				}
+			}
+		}
+	noDelete:
 		atomic.StoreInt64(&st.n, 0)
 	}
 
